@@ -1030,3 +1030,42 @@ def rule_issuer(ctx, bodies):
   # every key with weak set must be flagged: the negative path must carry falsy(weak)
   ctx.record(R, where, "issuer-mapping", not probs, "; ".join(sorted(set(probs))) or
              "one ECKey per distinct issuer point, CheckAllEC once, verdict copied to exactly the signatures mapped to the point")
+
+
+def rule_isolated(ctx, bodies, R, only=None):
+  """Weaker sibling of R-C16-ONCE used by C07 / C08: the *verdict* (entry.result) recorded for an artifact is determined inside that artifact's own
+  iteration - the entry is created there, or its result is assigned there before SetTestResult (for the per-key entry of CheckIssuerKey: inside the
+  enclosing per-key iteration).  A reused entry whose other fields leak (severity) is C16's business, not a wrong verdict."""
+  for b in bodies:
+    where = b.where()
+    if only is not None and not only(where):
+      continue
+    problems = []
+    n_paths = 0
+    for info in b.result_loops():
+      encl = b.enclosing_loops(info)
+      for kind, val, s, since, visit in info["body_paths"]:
+        evs = b.path_events(s, since)
+        sets = [e for e in evs if e.kind == "call" and e.data["name"] == T.SET_RESULT]
+        if len(sets) != 1:
+          continue          # counted by R-C16-ONCE
+        n_paths += 1
+        entry = (sets[0].data["args"] + [None, None])[1]
+        if entry is None:
+          continue
+        ent = as_poly(entry)
+        scopes = [evs]
+        if where in SHARED_ENTRY and encl:
+          for v in encl[-1].get("visits", []):
+            scopes.append(b.path_events(s, v["since"]))
+        fresh = any(x.kind == "call" and x.data["name"] == "meth:" + T.CREATE and as_poly(x.data["value"]) == ent for sc in scopes for x in sc)
+        assigned = any(x.kind == "setattr" and x.data["attr"] == "result" and as_poly(x.data["base"]) == ent and x.state.trace and True for sc in scopes for x in sc
+                       if sc.index(x) < (sc.index(sets[0]) if sets[0] in sc else len(sc)))
+        if not fresh and not assigned:
+          problems.append("on a path of one iteration the recorded entry was neither created nor given its result in that iteration: it carries the verdict of "
+                          "whichever artifact set it last (path: %s)" % describe_pc(s, since))
+    if problems:
+      for p in sorted(set(problems))[:2]:
+        ctx.violation(R, where, "verdict isolated per artifact", p)
+    elif n_paths:
+      ctx.ok(R, where, "verdict isolated per artifact", "%d iteration paths: the entry recorded is fresh or its result is assigned in the same iteration" % n_paths)
